@@ -280,6 +280,10 @@ func ThreadedValue(v ssa.Value) ssa.Value {
 		threadedCache[ph] = a
 		return a
 	}
+	if a := onlyFeasible(ph); a != nil {
+		threadedCache[ph] = a
+		return a
+	}
 	j := ph.Block()
 	iff, ok := lastIf(j)
 	if !ok || len(j.Succs) != 2 || ph.Referrers() == nil {
@@ -1407,6 +1411,42 @@ func getOrCreate(ph *ssa.Phi) ssa.Value {
 		if clean {
 			return ph.Edges[li]
 		}
+	}
+	return nil
+}
+
+// onlyFeasible: all but one incoming edge of the phi come over branches that can never be taken
+// (a helper's boolean parameter bound to a literal at the call site and tested inside the inlined
+// body): the phi is the value of the one edge that can.
+func onlyFeasible(ph *ssa.Phi) ssa.Value {
+	fn := ph.Parent()
+	if fn == nil || len(fn.Blocks) == 0 || len(ph.Edges) < 2 {
+		return nil
+	}
+	live := reach(fn.Blocks[0], nil, nil)
+	var val ssa.Value
+	n := 0
+	for k, e := range ph.Edges {
+		pred := ph.Block().Preds[k]
+		if !live[pred] {
+			continue
+		}
+		// the edge pred -> block itself may be the dead arm of a constant test
+		sm := staticMask(pred)
+		okEdge := false
+		for q, sc := range pred.Succs {
+			if sc == ph.Block() && sm&(1<<uint(q)) != 0 {
+				okEdge = true
+			}
+		}
+		if !okEdge {
+			continue
+		}
+		n++
+		val = e
+	}
+	if n == 1 && val != ssa.Value(ph) {
+		return val
 	}
 	return nil
 }
